@@ -4,6 +4,7 @@ package main
 // context's deadline.
 
 import (
+	"bytes"
 	"github.com/cenkalti/backoff/v4"
 	"strings"
 	"math/rand"
@@ -129,6 +130,8 @@ func (u *udpBMC) serve() {
 			delay = T + 60*time.Millisecond
 		case "garbage":
 			r = []byte{6, 0, 0xff, 7, 1, 2, 3}
+		case "huge": // far longer than the transport's receive buffer: the read is truncated, nothing decodes
+			r = append([]byte{6, 0, 0xff, 7, 6, 0}, bytes.Repeat([]byte{0xAA}, 1400)...)
 		case "busy":
 			if len(p) > 16 && p[5]&0x3f == 0 { // IPMI payload: answer node busy (session-less form; in a session it is just noise)
 				r = wrapSessionless(0, ipmiRsp(p[17]>>2, p[21], 0xC0, nil))
@@ -321,7 +324,7 @@ func doTime(a []string) (string, string) {
 
 func genTime(g *genCtx) {
 	calls := []string{"sl", "hs", "hsd", "cmd", "close", "sdr"}
-	faults := []string{"blackhole", "late", "garbage", "busy", "trunc"}
+	faults := []string{"blackhole", "late", "garbage", "busy", "trunc", "huge"}
 	ratios := [][2]int{{100, 300}, {1000, 200}, {50, 0}}
 	if g.thorough() {
 		ratios = append(ratios, [2]int{30, 400}, [2]int{200, 200}, [2]int{10, 120}, [2]int{400, 1000})
